@@ -2257,24 +2257,33 @@ class TagNode(_ElementWrappingNode, NodeBase):
 
     def iterate_descendants(self, *filter: Filter) -> Iterator[NodeBase]:
         all_filters = default_filters[-1] + filter
-        with altered_default_filters():
-            candidate = self.first_child
-            if candidate is None:
-                return
+        # the default filters must not be altered across a `yield`, hence the first child
+        # nodes are fetched without the filtering `first_child` property
+        candidate = self.__first_child_node()
+        if candidate is None:
+            return
 
-            next_candidates: list[NodeBase | None] = []
-            while candidate is not None:
-                if all(f(candidate) for f in all_filters):
-                    yield candidate
+        next_candidates: list[NodeBase | None] = []
+        while candidate is not None:
+            if all(f(candidate) for f in all_filters):
+                yield candidate
 
-                if isinstance(candidate, TagNode):
-                    next_candidates.append(candidate._fetch_following_sibling())
-                    candidate = candidate.first_child
-                else:
-                    candidate = candidate._fetch_following_sibling()
+            if isinstance(candidate, TagNode):
+                next_candidates.append(candidate._fetch_following_sibling())
+                candidate = candidate.__first_child_node()
+            else:
+                candidate = candidate._fetch_following_sibling()
 
-                while candidate is None and next_candidates:
-                    candidate = next_candidates.pop()
+            while candidate is None and next_candidates:
+                candidate = next_candidates.pop()
+
+    def __first_child_node(self) -> Optional[NodeBase]:
+        if self._data_node._exists:
+            return self._data_node
+        elif len(self._etree_obj):
+            return _wrapper_cache(self._etree_obj[0])
+        else:
+            return None
 
     @property
     def last_child(self) -> Optional[NodeBase]:
